@@ -737,6 +737,11 @@ def walk (h : Heap) : Nat → List Step → Option Nat
       | none => none
     | _ => none
 
+/-- `dict.__setitem__` on a cell: an existing key keeps its place -/
+def putKey (k : Name) (a : Nat) : List (Name × Nat) → List (Name × Nat)
+  | [] => [(k, a)]
+  | (k', a') :: r => if k = k' then (k', a) :: r else (k', a') :: putKey k a r
+
 /-- `root[path][k] = v` for an int `v`: the mapping at `path` is mutated in place -/
 def assign (h : Heap) (root : Nat) (path : List Step) (k : Name) (v : Int) : Option Heap :=
   match walk h root path with
@@ -745,7 +750,7 @@ def assign (h : Heap) (root : Nat) (path : List Step) (k : Name) (v : Int) : Opt
     match cell h a with
     | .dict kvs =>
       let h1 := h ++ [.int v]
-      some (h1.set a (.dict ((kvs.filter fun p => p.1 != k) ++ [(k, h.length)])))
+      some (h1.set a (.dict (putKey k h.length kvs)))
     | _ => none
 
 end Cpppo.Dotdict.Heap
